@@ -48,6 +48,7 @@ package align
 //@   props C08 C09
 //@   witness blocks
 //@   let G := 255
+//@   requires imul(len(a) + 1, len(b) + 1) <= 4611686018427387904
 //@   ensures len(blocks) == imul(len(a) + 1, len(b) + 1)
 //@   ensures forall c int :: 0 <= c && c < len(blocks) ==> cellG(fieldarr(blocks, score), fieldarr(blocks, step), a, b, len(b) + 1, mapval(m), c)
 //@   ensures result.1 == blocks[len(blocks) - 1].score
@@ -63,7 +64,7 @@ package align
 
 //@ func traceAlignmentSteps
 //@   props C08 C09
-//@   requires bn >= 1 && len(blocks) >= 1
+//@   requires bn >= 1 && len(blocks) >= 1 && bn <= 72057594037927936
 //@   requires forall c int :: 0 < c && c < len(blocks) ==> stepsOK(fieldarr(blocks, step), bn, c)
 //@   ensures result.1 == blocks[len(blocks)-1].score
 //@   loop 1
@@ -76,6 +77,7 @@ package align
 //@   props C08 C09
 //@   witness blocks
 //@   let G := 255
+//@   requires imul(len(a) + 1, len(b) + 1) <= 4611686018427387904
 //@   ensures len(blocks) == imul(len(a) + 1, len(b) + 1)
 //@   ensures forall c int :: 0 <= c && c < len(blocks) ==> cellL(fieldarr(blocks, score), fieldarr(blocks, step), a, b, len(b) + 1, mapval(m), c) && blocks[c].score >= 0.0
 //@   ensures forall c int :: 0 <= c && c < len(blocks) ==> blocks[c].score <= result.3
@@ -93,7 +95,7 @@ package align
 
 //@ func traceAlignmentStepsLocal
 //@   props C08 C09
-//@   requires bn >= 1 && len(blocks) >= 1
+//@   requires bn >= 1 && len(blocks) >= 1 && bn <= 72057594037927936
 //@   requires forall c int :: 0 <= c && c < len(blocks) ==> blocks[c].score >= 0.0
 //@   requires forall c int :: 0 <= c && c < len(blocks) && blocks[c].score > 0.0 ==>
 //@              idiv(c, bn) >= 1 && imod(c, bn) >= 1 && (blocks[c].step == 1 || blocks[c].step == 2 || blocks[c].step == 3)
